@@ -899,7 +899,9 @@ pub async fn run_scenario(sc: &Value) -> Vec<Value> {
                 let n2 = op2["op"].as_str().unwrap_or("");
                 match n2 {
                     "call_drop" | "recv_drop" => {
-                        env.ev(json!({"ev":format!("{}_dropped", what),"polls":polls}));
+                        env.scan();
+                        let parts = env.partials();
+                        env.ev(json!({"ev":format!("{}_dropped", what),"polls":polls,"partials":parts}));
                         done = true;
                         break;
                     }
